@@ -40,6 +40,10 @@ CLAIMED = {
   text="Bounded symbolic execution of the real parse.FromJSON/NewResult, fifo and priority groupFromJSON and Modify*, filter.Filter, header.Filter/Matcher/Append, martianhttp servePOST/ModifyRequest/ModifyResponse and MultiError from SSA over generated configuration trees. The JSON text of each tree is fed to the real registry; priorities are symbolic digits and every filter condition reads a symbolic header byte, so z3 decides every ordering and branch. The oracle is a depth-first reference evaluator written from the property statement (FIFO order, descending priority with later-listed first among equals, condition/else, scope projection at every level, first-error stop vs aggregation with every error once); compared are the append-only trace written by the leaves and the number of reported errors. A second harness corrupts a configuration at every depth (unknown modifier, bad scope, malformed JSON, two keys, wrong value type) and checks whole-configuration rejection, and that a rejected POST keeps the previous configuration while an accepted one replaces it.",
   note="Bounds: trees of depth 1, fan-out 2, 5 scope variants per node (quick); depth 2, fan-out 2, 3 scope variants below the root (thorough); node types fifo.Group, priority.Group, header.Filter, header.Append. Other registered filters (url, querystring, method, cookie) are not instantiated. encoding/json is an engine model (order-preserving parser, decode by tag). Trusted: go/ssa, symgo, z3.",
   ref="DESIGN.md section 6, C12"),
+ "C13": dict(
+  text="Bounded symbolic execution of the real verifier tree walks (header and status verifiers, filter.Filter and fifo.Group Verify*/Reset*, martianhttp.Modifier, MultiError flattening) from SSA over histories of traffic, verification queries and resets on six verifier-bearing configuration shapes. Every exchange carries symbolic header bytes, a symbolic status and a symbolic API-request flag, so z3 decides which expectations are met and which branch is taken; the oracle is a counter model (one error per unmet evaluation since the last reset, flattened, none lost or duplicated, API requests never counted, reset clears both branches). The data-race clause is decided by the engine's lock-discipline monitor: MultiError.errs must be accessed under MultiError.mu and verifier error fields written only under a write lock.",
+  note="Bounds: histories of 3 (quick) / 4 (thorough) operations; shapes: verifier under group, filter true branch, filter else branch, nested groups + status verifier, verifiers in both branches, filter inside group. Queries go through martianhttp.Modifier, not through the HTTP verify handlers' JSON encoding. Interleavings are not enumerated (lockset argument). Trusted: go/ssa, symgo, z3; encoding/json decoding is an engine model.",
+  ref="DESIGN.md section 6, C13"),
 }
 
 NOT_YET = "check not built yet in this round; planned with the same technique (DESIGN.md section 6)"
